@@ -94,7 +94,10 @@ def rule_callers(P, prop=None):
     if len(outside) < 50:
         raise AnalysisBroken("layer.callers positive control: expected ≥50 callers of createReducedNode outside forest.cc, saw %d — call graph is incomplete" % len(outside))
     R.notes.append("positive control: %d functions outside the table call forest::createReducedNode and would be reported by a table that forbade them" % len(outside))
-    R.require_floor({None: 50, "C01": 15, "C02": 20, "C04": 5, "C06": 12, "C07": 9, "C12": 6, "C13": 10, "C17": 4}.get(prop, 1), "caller edges into the protected primitives")
+    # every table line has at least one caller (checked above); the floor is the number of lines, so a caller that
+    # legitimately disappears is not "analysis broken" while a vanished table still is
+    nlines = sum(1 for props, *_ in CALLER_TABLE if prop is None or prop in props.split())
+    R.require_floor(nlines, "caller edges into the protected primitives")
     return R
 
 
